@@ -505,16 +505,27 @@ impl Wal {
 
         let offset = file.metadata()?.len();
         file.seek(SeekFrom::End(0))?;
-        #[cfg(nervusdb_verif)]
-        crate::verif_io::hook(crate::verif_io::IoKind::Write, &self.path, None, offset, &len.to_le_bytes())?;
-        file.write_all(&len.to_le_bytes())?;
-        #[cfg(nervusdb_verif)]
-        crate::verif_io::hook(crate::verif_io::IoKind::Write, &self.path, None, offset + 4, &crc.to_le_bytes())?;
-        file.write_all(&crc.to_le_bytes())?;
-        #[cfg(nervusdb_verif)]
-        crate::verif_io::hook(crate::verif_io::IoKind::Write, &self.path, None, offset + 8, &body)?;
-        file.write_all(&body)?;
-        file.flush()?;
+        let path = &self.path;
+        let written = (|| -> Result<()> {
+            #[cfg(nervusdb_verif)]
+            crate::verif_io::hook(crate::verif_io::IoKind::Write, path, None, offset, &len.to_le_bytes())?;
+            file.write_all(&len.to_le_bytes())?;
+            #[cfg(nervusdb_verif)]
+            crate::verif_io::hook(crate::verif_io::IoKind::Write, path, None, offset + 4, &crc.to_le_bytes())?;
+            file.write_all(&crc.to_le_bytes())?;
+            #[cfg(nervusdb_verif)]
+            crate::verif_io::hook(crate::verif_io::IoKind::Write, path, None, offset + 8, &body)?;
+            file.write_all(&body)?;
+            file.flush()?;
+            Ok(())
+        })();
+        if written.is_err() {
+            // Drop a partially written frame: records appended behind it would be unreadable.
+            #[cfg(nervusdb_verif)]
+            let _ = crate::verif_io::hook(crate::verif_io::IoKind::SetLen, path, None, offset, &[]);
+            let _ = file.set_len(offset);
+        }
+        written?;
         Ok(offset)
     }
 
